@@ -84,7 +84,10 @@ def _console(W: int, color: bool = True, ascii_only: bool = False):
 
 def _render(console, renderable, width: Optional[int] = None):
     """-> (lines as lists of (char, style), whether the output ended with a new line)"""
-    options = console.options if width is None else console.options.update(width=width)
+    return _render_with(console, renderable, console.options if width is None else console.options.update(width=width))
+
+
+def _render_with(console, renderable, options):
     lines: List[List[Tuple[str, Any]]] = [[]]
     for seg in console.render(renderable, options):
         if seg.is_control:
@@ -281,6 +284,21 @@ def check_frame(spec: Dict[str, Any], W: int) -> Tuple[Dict[str, int], List[Dict
     lw = [_cells(t) for t in texts]
     child_spec = spec["child"]
     floor = smin(spec)
+    if k in ("panel", "padding") and texts and len(set(lw)) == 1:
+        # (transparent wrappers - styled, constrain, align without pad - hand the justification to their text, whose
+        # lines then legitimately grow to the full width; Panel and Padding own their width)
+        # the same frame under render options that carry a justification (console.print(x, justify=...), a table or
+        # columns cell): justification moves text inside the frame, the frame stays a rectangle of the same width
+        j = ("left", "center", "right", "full")[(W + len(texts) + len(texts[0])) % 4]
+        out.hit("c08.frame_rectangle.under_justify")
+        try:
+            jl, _e = _render_with(console, mk(spec, W), console.options.update(justify=j))
+            jw = [_cells(_txt(l)) for l in jl]
+            if len(set(jw)) != 1 or jw[0] != lw[0]:
+                out.fail("c08.frame_rectangle.under_justify", "%s rendered under options.justify=%r: line widths %s, %d with the default justification"
+                         % (k, j, sorted(set(jw)), lw[0]), [lw[0]], {"widths": jw, "lines": [_txt(l) for l in jl][:8]}, k + ".justify")
+        except Exception as e:
+            out.fail("c08.frame_rectangle.under_justify", "rendering under options.justify=%r raised %s" % (j, type(e).__name__), "rendered output", repr(e)[:200], k + ".justify")
 
     def child():
         return mk(child_spec, W)
